@@ -9,6 +9,7 @@ use std::io::Write;
 use std::process::{Command, Stdio};
 use wmodel::{decode, Space, WModule, VT};
 
+#[derive(Clone)]
 pub struct Job {
     pub id: usize,
     pub spec: Value,
@@ -268,6 +269,10 @@ fn job_for(p: &Planned, do_gc: bool, full_values: bool, id: usize) -> Option<Job
         return None;
     }
     let out = roundtrip(&p.case.wasm, &Cfg::default(), do_gc).ok()?;
+    // an output the reference validator rejects is reported by the structural checks (C02/C06)
+    if wmodel::validate214(&out, wmodel::FeatureSet::DEFAULT).is_err() {
+        return None;
+    }
     let a = decode(&p.case.wasm).ok()?;
     let mut spec = spec_of(&a);
     if do_gc {
